@@ -379,9 +379,9 @@ func runDmg(prop, tier string) int {
 			}
 		}
 	} else {
-		shapes := []int{0}
+		shapes := []int{0, 1, 2, 3}
 		if tier == "thorough" {
-			shapes = []int{0, 1}
+			shapes = []int{0, 1, 2, 3, 4}
 		}
 		for _, si := range shapes {
 			_, _, files, err := dmgx.Base14(root+"/b", dmgx.Shapes14[si])
@@ -440,9 +440,10 @@ func runDmg(prop, tier string) int {
 	r.Cov["damage_spaces"] = spaces
 	r.Cov["outcome_classes"] = outcomes
 	if prop == "C07" {
-		r.Cov["rule"] = "for every base head segment (4 record shapes x 4 index layouts x V2, V1 for truncation and index damage) the complete damage space is enumerated: truncation to every length, every byte after the header altered three ways, zero/0xFF/pseudo-random tails of every length up to two records, index missing/truncated at every length/every byte inverted/extra items/other layout; each case through klevdb.Recover and through Open(Recover)+Close; distinct_nontrivial counts distinct outcome classes (valid records kept, clean or not, Check verdict, files left)"
+		r.Cov["base_segments"] = len(dmgx.Shapes07)
+		r.Cov["rule"] = "for every base head segment (record shapes incl. non-monotone and pre-epoch times, a gap in the offsets, bodies around 255/256 bytes, a head with base offset 2 behind sealed segments; x 4 index layouts x V2, V1 for truncation and index damage) the complete damage space is enumerated: truncation to every length, every byte after the header altered three ways, zero/0xFF/pseudo-random tails of every length up to two records, index missing/truncated at every length/every byte inverted/extra items/other layout; each case through klevdb.Recover and through Open(Recover)+Close; distinct_nontrivial counts distinct outcome classes (valid records kept, clean or not, Check verdict, files left)"
 	} else {
-		r.Cov["rule"] = "three-segment V2 logs with both indexes; damage applied to one .log file at a time: every single-bit flip, every start x length 1..8 overwrite with zeros/0xFF/pseudo-random/copy of preceding bytes, truncation to every length, every zero-filled suffix; after each a fresh Open and the full read sweep (Consume at all offsets x 3 counts, Get, GetByKey, ConsumeByKey, GetByTime); distinct_nontrivial counts distinct (open result, #calls failed, #calls succeeded) classes"
+		r.Cov["rule"] = "3-5 segment V2 logs with both indexes (uniform 40-byte records, mixed sizes with empty keys and values, one-message segments, equal times across boundaries); damage applied to one .log file at a time: every single-bit flip, every start x length 1..8 overwrite with zeros/0xFF/pseudo-random/copy of preceding bytes, truncation to every length, every zero-filled suffix; after each a fresh Open and the full read sweep (Consume at all offsets x 3 counts, Get, GetByKey, ConsumeByKey, GetByTime); distinct_nontrivial counts distinct (open result, #calls failed, #calls succeeded) classes"
 	}
 	r.Assumptions = []string{"index files intact for C14 (the property's own fault model)", "trusted: the independent reference parser (cross-checked against klevdb by C13)", "allocation clause: bytes allocated per call measured with runtime/metrics in a single-threaded worker, threshold 4 x file size + 1 MiB"}
 	return r.Finish()
@@ -808,9 +809,10 @@ func runIndexSched(r *eng.Run, tier string) {
 
 func runLock(tier string) int {
 	r := eng.NewRun("C19", tier, "model_checking", "lockx")
-	depth := 6
+	// the state space is finite (publishes through a handle are bounded): depth 12 reaches the fixpoint
+	depth := 12
 	if tier == "thorough" {
-		depth = 8
+		depth = 16
 	}
 	depth = envInt("VERIF_DEPTH", depth)
 	root, err := os.MkdirTemp(scratch(), "verif.lockx.")
@@ -830,9 +832,12 @@ func runLock(tier string) int {
 			ch <- out{st, lockx.Explore(sub, st, depth)}
 		}(st)
 	}
-	states, trans, maxd := 0, 0, 0
+	states, trans, maxd, fix := 0, 0, 0, 0
 	for range lockx.Starts {
 		o := <-ch
+		if o.res.Fixpoint {
+			fix++
+		}
 		if o.res.HarnessErr != "" {
 			r.HarnessError(o.st.Name + ": " + o.res.HarnessErr)
 		}
@@ -866,7 +871,11 @@ func runLock(tier string) int {
 	r.Cov["distinct_nontrivial"] = states
 	r.Cov["max_depth_completed"] = maxd
 	r.Cov["start_states"] = len(lockx.Starts)
-	r.Cov["rule"] = "breadth-first search over all sequences of OpenRW / OpenRO / failing Open (index-parameter mismatch under Check, read-write and read-only) / Close / Publish / Publish+Delete attempts through read-only handles on three handle slots of one directory (slots symmetric), from five start states (empty, single segment, multi segment, multi segment without index files, directory never opened before); a state is (slot modes, NextOffset, directory contents); every transition is a real execution of the whole history"
+	r.Cov["start_states_explored_to_fixpoint"] = fix
+	if fix < len(lockx.Starts) {
+		r.Cap(fmt.Sprintf("depth bound %d reached before the frontier ran empty in %d of %d start states", depth, len(lockx.Starts)-fix, len(lockx.Starts)))
+	}
+	r.Cov["rule"] = "breadth-first search over all sequences of OpenRW / OpenRO / failing Open (index-parameter mismatch under Check, read-write and read-only) / Close / Publish / Publish+Delete attempts through read-only handles on three handle slots of one directory (slots symmetric), from the start states counted in start_states (empty, single segment, multi segment, multi segment without index files, directory never opened before, damaged sealed segment, torn head); read-only opens also with Recover / Check and opens of a missing directory; a state is (slot modes, NextOffset, directory contents); every transition is a real execution of the whole history"
 	r.Assumptions = []string{"flock conflicts are per open file description, so handles inside one process exercise the same kernel path as separate processes", "up to three handles, histories up to the reported depth"}
 	return r.Finish()
 }
